@@ -87,6 +87,7 @@ bool edit_hello(HsMsg &m, const Slot &s, std::string &what) {
 struct Run {
     const Plan &pl; Ctx &c; bool stats; Obs obs; std::string desc;
     struct SidHolder { sslSessionId_t *s = nullptr; ~SidHolder() { if (s) matrixSslDeleteSessionId(s); } } sidh;   // declared before the pair: outlives the sessions
+    struct KeyHolder { sslKeys_t *k = nullptr; ~KeyHolder() { if (k) matrixSslDeleteKeys(k); } } ck, sk;             // freshly loaded per run: the ephemeral-key cache inside sslKeys_t must not carry over from one run to the next
     Pair p; Endpoint *V = nullptr, *P = nullptr; bool vclient = false;
     bool verbose2 = false; uint64_t seq0 = 0; unsigned ordinal = 0, deliveries = 0; bool want_second = false; bool applied[2] = { false, false };
     std::string shape, mutdesc;
@@ -216,6 +217,7 @@ struct Run {
         struct Fin { ~Fin() { c08_fill_on = 0; matrixDtlsSetPmtu(-1); } } fin;
         Config cc, sc; cc.client = true; sc.client = false; cc.versions = sc.versions = { ver }; cc.suites = { su.id }; cc.auth = sc.auth = su.auth; cc.entropy_stream = 1; sc.entropy_stream = 2; cc.client_auth = sc.client_auth = cauth; sc.cert_cb = cb_strict; cc.tickets = (pl.cfg & 16) != 0;
         if (pl.cfg & 16) { if (matrixSslNewSessionId(&sidh.s, NULL) < 0) throw Discard{}; cc.sid = sidh.s; }
+        ck.k = KeyStore::fresh(false, su.auth, cauth); sk.k = KeyStore::fresh(true, su.auth, true); if (!ck.k || !sk.k) throw Discard{}; cc.keys = ck.k; sc.keys = sk.k;
         if (p.s.open(sc) < 0 || p.c.open(cc) < 0) throw Discard{};
         V = vclient ? &p.c : &p.s; P = vclient ? &p.s : &p.c;
         unsigned timeouts = pl.timeouts % 3, sent_app = 0;
